@@ -5,7 +5,7 @@ import pipecheck as pc
 def run(ck, model_ok):
     ck.rule = ('verify() of layouts with 1..4 files around piece boundaries (sizes 0, 1, 100, L-1, L, L+1, 2L, 3L+5, 20000; L = 16 KiB), single-file and multi-file, top-level '
                'directory renamed on disk, x damage (none; one or two files missing / one byte short / one byte long / one byte flipped at the first, last, middle or a random '
-               'position) x thread counts 1..4 x with and without callback, under the cooperative scheduler; oracle: True iff undamaged; without callback a content / size / read '
+               'position / a whole piece replaced by the bytes of another piece of the same torrent) x thread counts 1..4 x with and without callback, under the cooperative scheduler; oracle: True iff undamaged; without callback a content / size / read '
                'error; with callback False and an error naming the damaged piece and a file set containing the altered file; schedules replayed on the Coq model; '
                'non-trivial = distinct (scenario, seed)')
     pc.run_family(ck, model_ok, 'C02', [('verify', 1200, 30000)])
